@@ -2,7 +2,9 @@ package streams
 
 import (
 	"context"
+	"fmt"
 	"math/rand"
+	"strings"
 	"time"
 
 	corev1 "k8s.io/api/core/v1"
@@ -129,11 +131,21 @@ type listFaultClient struct {
 	client.Client
 	failAt int
 	count  int
+	// failKind: when set, the first List of that list type fails instead (e.g. "ExtendedDaemonsetSettingList")
+	failKind string
+	done     bool
 }
 
 func (l *listFaultClient) List(ctx context.Context, list client.ObjectList, opts ...client.ListOption) error {
 	k := l.count
 	l.count++
+	if l.failKind != "" {
+		if !l.done && strings.HasSuffix(fmt.Sprintf("%T", list), "."+l.failKind) {
+			l.done = true
+			return injectedErr("list", l.failKind)
+		}
+		return l.Client.List(ctx, list, opts...)
+	}
 	if k == l.failAt {
 		return injectedErr("list", "objects")
 	}
